@@ -174,7 +174,7 @@ def classify (radix : Nat) (c : Char) : CharClass :=
     else .bad
   else
     if inRange 'A' 'Z' c then .digit (c.toNat - 'A'.toNat)
-    else if inRange 'a' 'f' c then .digit (c.toNat - 'a'.toNat + 26)
+    else if inRange 'a' 'z' c then .digit (c.toNat - 'a'.toNat + 26)
     else if inRange '0' '9' c then .digit (c.toNat - '0'.toNat + 52)
     else if c = '+' ∨ c = '-' then .digit 62
     else if c = '/' ∨ c = ',' ∨ c = '_' then .digit 63
